@@ -18,7 +18,10 @@ import (
 )
 
 type Step struct {
-	Kind string  `json:"kind"` // retain | read | read-goroutine | read-conn | write
+	Kind string  `json:"kind"` // retain | read | read-goroutine | read-conn | write | conn-retain | conn-read
+	// conn-retain / conn-read use ONE connection that lives as long as the case: the message is
+	// delivered in a single segment and (conn-retain) kept by the handler while the connection
+	// goes on receiving.
 	Msg  gen.Msg `json:"msg"`
 }
 
@@ -63,7 +66,7 @@ func genCase(t *rapid.T) Case {
 	for i := 0; i < n; i++ {
 		kind := "retain"
 		if i > 0 {
-			kind = rapid.SampledFrom([]string{"retain", "read", "read", "read-goroutine", "read-conn", "write"}).Draw(t, "kind")
+			kind = rapid.SampledFrom([]string{"retain", "read", "read", "read-goroutine", "read-conn", "write", "conn-retain", "conn-retain", "conn-read", "conn-read"}).Draw(t, "kind")
 		}
 		var m gen.Msg
 		m.Flags, m.Code, m.App, m.HbH, m.E2E = cat.Header(t)
@@ -119,6 +122,12 @@ func runCase(c Case) *ev.Failure {
 		return ev.Failf("harness-dict", "%v", err)
 	}
 	var kept []*retained
+	var pc *persistentConn
+	defer func() {
+		if pc != nil {
+			pc.close()
+		}
+	}()
 	for i := range c.Steps {
 		st := &c.Steps[i]
 		ref := st.Msg.RefBytes()
@@ -147,6 +156,25 @@ func runCase(c Case) *ev.Failure {
 			if f := readThroughConn(p, ref, i); f != nil {
 				return f
 			}
+		case "conn-retain", "conn-read":
+			if pc == nil {
+				var err error
+				if pc, err = newPersistentConn(p); err != nil {
+					return ev.Failf("harness-conn", "%v", err)
+				}
+			}
+			m, f := pc.deliver(ref, i)
+			if f != nil {
+				return f
+			}
+			if st.Kind == "conn-retain" {
+				r := &retained{step: i, m: m, want: &st.Msg, ref: ref}
+				if d := gen.CompareTree(st.Msg.AVPs, m.AVP, ""); d != "" {
+					return ev.Failf("harness-read", "step %d: the connection loop delivered a different message: %s", i, d)
+				}
+				r.str = m.String()
+				kept = append(kept, r)
+			}
 		case "write":
 			m := diam.NewMessage(st.Msg.Code, st.Msg.Flags, st.Msg.App, st.Msg.HbH, st.Msg.E2E, p)
 			for _, a := range st.Msg.AVPs {
@@ -164,6 +192,47 @@ func runCase(c Case) *ev.Failure {
 		}
 	}
 	return nil
+}
+
+// persistentConn is one library-served in-memory connection used for several steps.
+type persistentConn struct {
+	mc   *memnet.Conn
+	got  chan *diam.Message
+	stop chan struct{}
+}
+
+func newPersistentConn(p *dict.Parser) (*persistentConn, error) {
+	pc := &persistentConn{mc: memnet.NewConn(), got: make(chan *diam.Message, 16), stop: make(chan struct{})}
+	mux := diam.NewServeMux()
+	mux.HandleFunc("ALL", func(c diam.Conn, m *diam.Message) { pc.got <- m })
+	go func() {
+		for {
+			select {
+			case <-mux.ErrorReports():
+			case <-pc.stop:
+				return
+			}
+		}
+	}()
+	_, err := diam.NewConn(pc.mc, "", mux, p)
+	return pc, err
+}
+
+func (pc *persistentConn) deliver(ref []byte, step int) (*diam.Message, *ev.Failure) {
+	pc.mc.Feed(ref) // one segment: header and body are buffered together
+	select {
+	case m := <-pc.got:
+		return m, nil
+	case <-time.After(5 * time.Second):
+		return nil, ev.Failf("harness-conn", "step %d: the connection loop did not deliver the message within 5 s", step)
+	}
+}
+
+func (pc *persistentConn) close() {
+	pc.mc.FeedEOF()
+	pc.mc.WaitClosed(5 * time.Second)
+	pc.mc.Close()
+	close(pc.stop)
 }
 
 // readThroughConn lets the library's own connection loop read the message.
@@ -194,7 +263,7 @@ func readThroughConn(p *dict.Parser, ref []byte, step int) *ev.Failure {
 
 var prop = ev.Register(&ev.Prop[Case]{
 	ID: "C06", Name: "retained",
-	Rule: "histories of {retain a decoded message, read other content on the same goroutine / another goroutine / through a library-served in-memory connection, WriteTo} with messages made of slice-backed types (Address IPv4/IPv6/other, IPv4, IPv6, OctetString, undefined codes, groups of them) on both sides of the 1 KiB pooled buffer; after EVERY step every retained message must still equal the abstract message it was decoded from (tree, re-serialisation, rendering); non-trivial = a retained message with a slice-backed value and body <= 1024 followed by a later read with body <= 1024",
+	Rule: "histories of {retain a decoded message, retain a message delivered by a long-lived library-served connection while that connection goes on receiving, read other content on the same goroutine / another goroutine / through a fresh or the same library-served in-memory connection, WriteTo} with messages made of slice-backed types (Address IPv4/IPv6/other, IPv4, IPv6, OctetString, undefined codes, groups of them) on both sides of the 1 KiB pooled buffer; after EVERY step every retained message must still equal the abstract message it was decoded from (tree, re-serialisation, rendering); non-trivial = a retained message with a slice-backed value and body <= 1024 followed by a later read with body <= 1024",
 	Gen:  genCase, Run: runCase,
 	Classify: func(c Case) (bool, []string) {
 		var cl []string
@@ -207,10 +276,10 @@ var prop = ev.Register(&ev.Prop[Case]{
 				cl = append(cl, "step:"+s.Kind)
 			}
 			small := bodyLen(&s.Msg) <= 1024
-			if s.Kind != "retain" && s.Kind != "write" && small && retainedSmall {
+			if s.Kind != "retain" && s.Kind != "conn-retain" && s.Kind != "write" && small && retainedSmall {
 				nt = true
 			}
-			if s.Kind == "retain" {
+			if s.Kind == "retain" || s.Kind == "conn-retain" {
 				if small && retainedSmall {
 					nt = true
 				}
